@@ -508,6 +508,8 @@ class MockIncludeDirective:
         source = self.renderer.document["source"]
         rsource = self.renderer.reporter.source
         line_func = getattr(self.renderer.reporter, "get_source_and_line", None)
+        relative_images = self.renderer.md_env.get("relative-images")
+        relative_docs = self.renderer.md_env.get("relative-docs")
         self.document.myst_include_stack.append(include_key)
         try:
             self.renderer.document["source"] = str(path)
@@ -532,8 +534,8 @@ class MockIncludeDirective:
             self.document.myst_include_stack.pop()
             self.renderer.document["source"] = source
             self.renderer.reporter.source = rsource
-            self.renderer.md_env.pop("relative-images", None)
-            self.renderer.md_env.pop("relative-docs", None)
+            self.renderer.md_env["relative-images"] = relative_images
+            self.renderer.md_env["relative-docs"] = relative_docs
             if line_func is not None:
                 self.renderer.reporter.get_source_and_line = line_func
             else:
